@@ -390,6 +390,23 @@ def lastflag(P, E, chk, r4, send, uparam):
                         want = {base + ".len": 1, base + ".offset": -1, nkey: -1}
                         if n[1] == "==" and n[2] == 0 and (at == want or at == {k: -v for k, v in want.items()}):
                             ok = True
+        if not ok and nkey:
+            # the flag set by an if instead of by the comparison itself: 1 where the equality is known, 0 where its
+            # negation is known
+            want = {base + ".len": 1, base + ".offset": -1, nkey: -1}
+            neg = {k: -v for k, v in want.items()}
+            rels = set()
+            for f in d:
+                if f.kind == "cmp" and f.op in ("==", "!=") and not isinstance(f.key[2], int):
+                    n = L.norm_cmp(f.l, f.op, f.r)
+                    if n is not None and n[2] == 0 and dict(n[0]) in (want, neg):
+                        rels.add(f.op)
+            if "==" in rels and guard.d_holds(d, "==", flag, 1):
+                ok = True
+            if "!=" in rels and guard.d_holds(d, "==", flag, 0):
+                ok = True
+            if rels == {"==", "!="}:
+                ok = True           # both the equality and its negation: not a path that can be taken
         if not ok:
             bad.append(d)
     chk.site(r4, send, ir.loc(st), "last flag = bit 0 of `%s`" % flag, not bad,
